@@ -270,19 +270,23 @@ pub async fn verdict_matrix(sink: &mut Sink, prop: &str) {
     let sh = shapes(&fr, &schema);
     let mut it = Interner::new();
     let read_frags: Vec<MFrag> = fr.iter().map(|f| MFrag::from_real(f, &mut it)).collect();
-    let mut s = Stream::new("verdict", REQ, "chk_verdict", "(list frag * (op * option (list addr))) * op", "N");
-    s.shard = 450;
+    // one case = one (self shape, affected rows) against EVERY other shape (a fresh try_new per pair)
+    let mut s = Stream::new("verdict", REQ, "chk_verdict_row", "(list frag * (op * option (list addr))) * list op", "list N");
+    s.shard = 8;
     let plant = std::env::var("C03_PLANT").ok();
     let aff_variants: Vec<Option<Vec<(u64, u64)>>> = vec![None, Some(vec![(0, 1), (0, 3)]), Some(vec![(2, 0), (1, 4)])];
     let mut kinds = std::collections::BTreeSet::new();
+    let others_m: Vec<MOp> = sh.iter().map(|b| MOp::from_real(&b.op, &mut it)).collect();
+    let others_coq = coq::list(others_m.iter().map(|m| m.coq()));
+    let mut npairs = 0u64;
     for a in &sh {
         let ma = MOp::from_real(&a.op, &mut it);
         kinds.insert(ma.kind());
         let affs: Vec<Option<Vec<(u64, u64)>>> = if matches!(a.op, Operation::Delete { .. } | Operation::Update { .. }) { aff_variants.clone() } else { vec![None] };
         for aff in &affs {
             let tree: Option<RowIdTreeMap> = aff.as_ref().map(|l| l.iter().map(|(f, o)| (f << 32) | o).collect());
+            let mut codes: Vec<u64> = vec![];
             for b in &sh {
-                let mb = MOp::from_real(&b.op, &mut it);
                 let txn = Transaction::new(rv, a.op.clone(), None);
                 let other = Transaction::new(rv, b.op.clone(), None);
                 let r = std::panic::AssertUnwindSafe(async {
@@ -295,7 +299,8 @@ pub async fn verdict_matrix(sink: &mut Sink, prop: &str) {
                     Ok(x) => err_code(x),
                     Err(_) => 4,
                 };
-                if plant.as_deref() == Some("verdict") && s.len() == 1234 {
+                npairs += 1;
+                if plant.as_deref() == Some("verdict") && npairs == 1234 {
                     code = (code + 1) % 3;
                 }
                 let case = json!({"self": a.label, "affected_rows": aff, "other": b.label, "verdict": code});
@@ -316,12 +321,15 @@ pub async fn verdict_matrix(sink: &mut Sink, prop: &str) {
                     sink.oracle_ok();
                 }
                 sink.count(&format!("verdict:{}", code));
-                let inp = coq::pair(&coq::pair(&frags_coq(&read_frags), &coq::pair(&ma.coq(), &aff_coq(aff))), &mb.coq());
-                sink.nontrivial(&inp);
-                s.push(inp, coq::n(code), case);
+                codes.push(code);
             }
+            let inp = coq::pair(&coq::pair(&frags_coq(&read_frags), &coq::pair(&ma.coq(), &aff_coq(aff))), &others_coq);
+            sink.nontrivial(&format!("{}|{:?}", a.label, aff));
+            let labelled: Vec<String> = sh.iter().zip(codes.iter()).map(|(b, c)| format!("{}={}", b.label, c)).collect();
+            s.push(inp, coq::nlist(codes.iter()), json!({"self": a.label, "affected_rows": aff, "verdict_per_other": labelled}));
         }
     }
-    sink.notes.push(format!("verdict matrix exhaustive over {} operation shapes of {} kinds (x3 affected-row variants for Delete/Update as self) = {} pairs", sh.len(), kinds.len(), s.len()));
+    sink.count_n("verdict_pairs", npairs);
+    sink.notes.push(format!("verdict matrix exhaustive over {} operation shapes of {} kinds (x3 affected-row variants for Delete/Update as self) = {} pairs in {} rows", sh.len(), kinds.len(), npairs, s.len()));
     sink.add(s);
 }
